@@ -248,6 +248,14 @@ func isNonNilExpr(info *types.Info, e ast.Expr) bool {
 				return true
 			}
 		}
+		// fmt.Errorf and errors.New never return nil
+		if sel, ok := x.Fun.(*ast.SelectorExpr); ok {
+			if fn, ok := info.Uses[sel.Sel].(*types.Func); ok && fn.Pkg() != nil {
+				if (fn.Pkg().Path() == "fmt" && fn.Name() == "Errorf") || (fn.Pkg().Path() == "errors" && fn.Name() == "New") {
+					return true
+				}
+			}
+		}
 	case *ast.CompositeLit:
 		if tv, ok := info.Types[x]; ok && tv.Type != nil {
 			switch tv.Type.Underlying().(type) {
